@@ -11,7 +11,7 @@ import (
 
 func init() {
 	register(&PropDef{
-		ID: "C05", Level: "exploration", Quick: 3000, Thorough: 300000, QuickCap: 100,
+		ID: "C05", Level: "exploration", Quick: 24000, Thorough: 300000, QuickCap: 100,
 		Rule:   "each run = one engine, a drawn table (2-6 rows x 1-3 families x several columns and versions, binary qualifiers and values) and 8 filtered ReadRows: one directed leaf filter (17 kinds x valid/invalid, visited by seeded permutation), one directed depth-2 composition (chain/interleave/condition x leaf x leaf, by permutation), the rest random trees of depth <= 3 with boundary arguments; every returned row is compared with the evaluator's admissible outputs; distinct = hash of (engine, filter shapes); non-trivial = a filter with at least one composite node or an invalid argument",
 		Real:   []string{"bttest ReadRows, filterRow, includeCell, modifyCell, newRegexp (binaryregexp)", "all three engines"},
 		Stub:   []string{"gRPC transport", "the row-sample random source (drawn from the rng stream)"},
